@@ -12,6 +12,27 @@ NOT_BUILT = "check not built yet in this round (claimed by DESIGN.md; " \
             "listed here until its static check exists and is exact)"
 
 CHECKS = {
+    "C12": {
+        "text": "NARROW: decides only the replicability clauses visible in "
+                "the code: no call in the package/examples resolves to an "
+                "unseeded, time- or OS-dependent source (imports resolved, "
+                "3500 call sites), sets iterated are int sets, every bundled "
+                "Execution has an FE budget and no time budget, nested "
+                "executions are seeded on every path of their loop round, "
+                "the hardness seed memo is keyed by what its seeds derive "
+                "from, and the packing log parser's key equals the key the "
+                "space writes (constants folded from moptipy's source).",
+        "design_ref": "DESIGN.md section 4, C12",
+        "note": "Does NOT decide run behaviour: termination within budget, "
+                "feasibility of final solutions, logged value = "
+                "re-evaluation, identical reruns. moptipyapps.tests.* "
+                "helpers are out of scope. Trusted: moptipy seeds runs from "
+                "the instance name; process.get_random() is the run's "
+                "generator.",
+        "technique": "who-may-call ban list over resolved imports + CFG "
+                     "dominance (seed before execute) + writer/reader key "
+                     "agreement by constant folding",
+    },
     "C11": {
         "text": "Field-write discipline of the figure-of-merit objectives "
                 "decided on AST and CFG: the write set of evaluate() and of "
